@@ -26,7 +26,8 @@ C10Checks(e) ==
            + Chk("C10.sound.valid", << key, R[i].at >>, ValidDateTime(R[i].at[1], R[i].at[2], R[i].at[3], R[i].at[4], R[i].at[5], R[i].at[6])))
          + SumN(Len(R) - 1, LAMBDA i :
              Chk("C10.sorted", << key, R[i].at, R[i + 1].at >>, TBefore(InstOf6(R[i].at), InstOf6(R[i + 1].at))))
-         + (IF x.q[1] > now THEN 0
+         \* a query taken from before the base year is outside the domain: soundness only
+         + (IF x.q[1] > now \/ x.q[1] < x.b THEN 0
             ELSE IF jieFirstHalf
               THEN Chk("C10.complete.jie-before-slot-representative", << "query-before-jie", key >>, found)
               ELSE Chk("C10.complete", << key, Len(R) >>, found)))
